@@ -4,68 +4,68 @@ Require Import UV.C01.Isa UV.Gen.Stubs UV.C01.ArchCtx.
 Import ListNotations.
 Local Open Scope Z_scope.
 
-Lemma yreg_eq (a b : yreg) :
-  fst (fst a) = fst (fst b) -> snd (fst a) = snd (fst b) ->
-  fst (snd a) = fst (snd b) -> snd (snd a) = snd (snd b) -> a = b.
-Proof. destruct a as [[? ?] [? ?]], b as [[? ?] [? ?]]; cbn; congruence. Qed.
+Ltac cases8 r := do 8 (destruct r as [|r]; [|]); [.. | lia].
 
-(* with the ymm state enabled the generated AVX pair gives back all 256 bits of ymm0..ymm7, whatever ran
-   in between and whatever the context buffer held *)
-Lemma arch_context_roundtrip_avx (x : yfile) (c0 : Z -> Z) (clobber : yfile) (r : nat) :
-  (r < 8)%nat -> arch_roundtrip_now true x c0 clobber r = x r.
+(* on a machine of any level the pair chosen for it gives back every architecturally visible word of the
+   vector registers 0..7, whatever ran in between and whatever the context buffer held *)
+Lemma arch_context_roundtrip (level : nat) (x : vfile) (c0 : Z -> Z) (clobber : vfile) (r i : nat) :
+  (level <= 2)%nat -> (r < 8)%nat -> (i < visible level)%nat ->
+  arch_roundtrip_now level x c0 clobber r i = x r i.
 Proof.
-  intro H.
-  do 8 (destruct r as [|r]; [apply yreg_eq; vm_compute; reflexivity|]).
-  lia.
-Qed.
-
-(* without it, the SSE pair gives back bits 0-127 of xmm0..xmm7 - all the state there is *)
-Lemma arch_context_roundtrip_sse (x : yfile) (c0 : Z -> Z) (clobber : yfile) (r : nat) :
-  (r < 8)%nat -> fst (arch_roundtrip_now false x c0 clobber r) = fst (x r).
-Proof.
-  intro H.
-  do 8 (destruct r as [|r]; [apply injective_projections; vm_compute; reflexivity|]).
-  lia.
+  intros Hl Hr Hi.
+  destruct level as [|[|[|level]]]; [| | |lia]; cbn [visible] in Hi.
+  - do 8 (destruct r as [|r]; [do 2 (destruct i as [|i]; [vm_compute; reflexivity|]); lia|]). lia.
+  - do 8 (destruct r as [|r]; [do 4 (destruct i as [|i]; [vm_compute; reflexivity|]); lia|]). lia.
+  - do 8 (destruct r as [|r]; [do 8 (destruct i as [|i]; [vm_compute; reflexivity|]); lia|]). lia.
 Qed.
 
 (* registers a pair does not load keep whatever the code in between left there *)
-Lemma arch_roundtrip_untouched (avx : bool) (x : yfile) (c0 : Z -> Z) (clobber : yfile) (r : nat) :
-  (8 <= r)%nat -> arch_roundtrip_now avx x c0 clobber r = clobber r.
+Lemma arch_roundtrip_untouched (level : nat) (x : vfile) (c0 : Z -> Z) (clobber : vfile) (r i : nat) :
+  (level <= 2)%nat -> (8 <= r)%nat -> arch_roundtrip_now level x c0 clobber r i = clobber r i.
 Proof.
-  intro H. do 8 (destruct r as [|r]; [lia|]).
-  destruct avx; apply yreg_eq; vm_compute; reflexivity.
+  intros Hl H. do 8 (destruct r as [|r]; [lia|]).
+  destruct level as [|[|[|level]]]; [| | |lia]; vm_compute; reflexivity.
+Qed.
+
+(* the AVX pair on a machine whose zmm state is live (the code before fix C01-6): bits 256-511 are lost *)
+Lemma arch_context_avx_only_refuted :
+  exists (x : vfile) c0 clobber r i, (r < 8)%nat /\ (i < 8)%nat /\ arch_roundtrip_avx_only x c0 clobber r i <> x r i.
+Proof.
+  exists (fun _ _ => 5), (fun _ => 0), (fun _ _ => 0), 0%nat, 4%nat. split; [lia|]. split; [lia|].
+  vm_compute. discriminate.
 Qed.
 
 (* the SSE pair on a machine whose ymm state is live (the code before fix C01-5): bits 128-255 are lost *)
 Lemma arch_context_sse_only_refuted :
-  exists (x : yfile) c0 clobber r, (r < 8)%nat /\ snd (arch_roundtrip_sse_only x c0 clobber r) <> snd (x r).
+  exists (x : vfile) c0 clobber r i, (r < 8)%nat /\ (i < 4)%nat /\ arch_roundtrip_sse_only x c0 clobber r i <> x r i.
 Proof.
-  exists (fun _ => ((1, 2), (3, 4))), (fun _ => 0), (fun _ => ((0, 0), (0, 0))), 0%nat. split; [lia|].
+  exists (fun _ _ => 5), (fun _ => 0), (fun _ _ => 0), 0%nat, 2%nat. split; [lia|]. split; [lia|].
   vm_compute. discriminate.
 Qed.
 
 (* the pair as it was before fix C01-1 (movsd both ways): bits 0-63 survive, bits 64-127 are zeroed *)
-Lemma arch_context_legacy_low (x : yfile) (c0 : Z -> Z) (clobber : yfile) (r : nat) :
-  (r < 8)%nat -> fst (fst (arch_roundtrip_legacy x c0 clobber r)) = fst (fst (x r)).
+Lemma arch_context_legacy_low (x : vfile) (c0 : Z -> Z) (clobber : vfile) (r : nat) :
+  (r < 8)%nat -> arch_roundtrip_legacy x c0 clobber r 0%nat = x r 0%nat.
 Proof.
-  intro H.
-  do 8 (destruct r as [|r]; [vm_compute; reflexivity|]).
-  lia.
+  intro H. do 8 (destruct r as [|r]; [vm_compute; reflexivity|]). lia.
 Qed.
 Lemma arch_context_legacy_refuted :
-  exists (x : yfile) c0 clobber r, (r < 8)%nat /\ snd (fst (arch_roundtrip_legacy x c0 clobber r)) <> snd (fst (x r)).
+  exists (x : vfile) c0 clobber r, (r < 8)%nat /\ arch_roundtrip_legacy x c0 clobber r 1%nat <> x r 1%nat.
 Proof.
-  exists (fun _ => ((3, 7), (0, 0))), (fun _ => 0), (fun _ => ((0, 0), (0, 0))), 0%nat. split; [lia|]. vm_compute. discriminate.
+  exists (fun _ _ => 7), (fun _ => 0), (fun _ _ => 0), 0%nat. split; [lia|]. vm_compute. discriminate.
 Qed.
 
-(* the 128-bit view used by the stub machine, for either kind of machine *)
-Lemma arch_roundtrip_lower (avx : bool) (x : xfile) (c0 : Z -> Z) (clobber : xfile) (r : nat) :
-  (r < 8)%nat -> arch_roundtrip128 avx x c0 clobber r = x r.
+(* the 128-bit view used by the stub machine, for every kind of machine *)
+Lemma arch_roundtrip_lower (level : nat) (x : xfile) (c0 : Z -> Z) (clobber : xfile) (r : nat) :
+  (level <= 2)%nat -> (r < 8)%nat -> arch_roundtrip128 level x c0 clobber r = x r.
 Proof.
-  intro H. unfold arch_roundtrip128. destruct avx.
-  - now rewrite arch_context_roundtrip_avx.
-  - now rewrite arch_context_roundtrip_sse.
+  intros Hl H. unfold arch_roundtrip128.
+  assert (V0 : (0 < visible level)%nat) by (destruct level as [|[|?]]; cbn; lia).
+  assert (V1 : (1 < visible level)%nat) by (destruct level as [|[|?]]; cbn; lia).
+  rewrite !arch_context_roundtrip by auto. cbn. now destruct (x r).
 Qed.
-Lemma arch_roundtrip_upper (avx : bool) (x : xfile) (c0 : Z -> Z) (clobber : xfile) (r : nat) :
-  (8 <= r)%nat -> arch_roundtrip128 avx x c0 clobber r = clobber r.
-Proof. intro H. unfold arch_roundtrip128. now rewrite arch_roundtrip_untouched. Qed.
+Lemma arch_roundtrip_upper (level : nat) (x : xfile) (c0 : Z -> Z) (clobber : xfile) (r : nat) :
+  (level <= 2)%nat -> (8 <= r)%nat -> arch_roundtrip128 level x c0 clobber r = clobber r.
+Proof.
+  intros Hl H. unfold arch_roundtrip128. rewrite !arch_roundtrip_untouched by auto. cbn. now destruct (clobber r).
+Qed.
